@@ -51,7 +51,7 @@ def search(drv, seed, tier='quick'):
         P = S.G1C.mul(a % R, S.P1); Qp = S.G2C.mul(b % R, S.P2)
         want = S.gt_bytes(e_spec(a, b))
         for lp, JP in G1g.reps(P, rnd):
-            for lq, JQ in G2g.reps(Qp, rnd)[:2]:
+            for lq, JQ in G2g.reps(Qp, rnd):
                 args = [canon_jac('Fq', JP), canon_jac('Fq2', JQ)]
                 for ep in ('pairing', 'fast_pairing', 'prepared_pairing'):
                     reqs.append((ep, lp + '/' + lq, args, want))
